@@ -1,9 +1,12 @@
 (* C08 — Only Ingresses classified for this controller are ever configured.
    Statements only; every proof is one `exact`. Models: Model/ClassSel.v (IsValidIngress,
-   GetIngress, GetIngressList, the documented rule [selected]) and Model/ClassWatch.v
-   (Ingress watcher, API-server generation, merge of a batch by syncPartial). *)
+   GetIngress, GetIngressList, the documented rule [selected]), Model/ClassWatch.v
+   (Ingress watcher, API-server generation, merge of a batch by syncPartial; fixed class
+   table) and Model/ClassWatchIC.v (the same with IngressClass create / update / delete
+   events: the class table is part of the state). *)
 From Coq Require Import String List Bool NArith.
-From HI Require Import Lib.XNs_Strs Model.ClassSel Model.ClassWatch Proofs.ClassSel Proofs.ClassWatch.
+From HI Require Import Lib.XNs_Strs Model.ClassSel Model.ClassWatch Model.ClassWatchIC
+  Proofs.ClassSel Proofs.ClassWatch Proofs.ClassWatchIC.
 Import ListNotations.
 Open Scope string_scope.
 
@@ -67,3 +70,31 @@ Theorem C08_view_tracks_selection : forall c cls ops n,
   In n (w_view s) <-> exists i, find_ingress (w_objs s) n = Some i /\ selected c cls i.
 Proof. exact view_tracks_selection. Qed.
 Print Assumptions C08_view_tracks_selection.
+
+(* The same at full strength, with IngressClass events in the history. A history is any
+   list of: create-or-update of an Ingress (IPut), deletion of an Ingress (IDelete),
+   create-or-update of an IngressClass - controller name, parameters or metadata only
+   such as the is-default-class annotation - (KPut), deletion of an IngressClass (KDel),
+   and reconciliations (ISwap, with any set [extra] of converted ingresses that the
+   tracker also marks dirty because they share hosts or backends). It starts from the
+   IngressClass objects ks0 that exist at start-up. After every reconciliation the
+   converted ingresses are exactly the existing ingresses that are valid - selected by
+   the documented rule - against the IngressClass objects that exist at that moment: a
+   deleted class makes its ingresses leave, a re-created class or a controller name
+   changed to ours makes them (re)enter, an ingress that stops matching is removed, and
+   nothing else changes. wf_op: ingressClassName holds no '/'. *)
+Theorem C08_view_tracks_validity_ic : forall c, wf_cfg c -> forall ks0 ops extra n,
+  Forall wf_op ops ->
+  let s := run2 c ks0 (ops ++ [ISwap extra]) in
+  In n (map fst (s_view s)) <->
+  exists i, find_ingress (s_objs s) n = Some i /\ is_valid c (to_classes (s_ks s)) i = true.
+Proof. exact view_tracks_validity_ic. Qed.
+Print Assumptions C08_view_tracks_validity_ic.
+
+Theorem C08_view_tracks_selection_ic : forall c ks0 ops extra n,
+  wf_cfg c -> NoDup (map k_name ks0) -> Forall wf_op ops ->
+  let s := run2 c ks0 (ops ++ [ISwap extra]) in
+  In n (map fst (s_view s)) <->
+  exists i, find_ingress (s_objs s) n = Some i /\ selected c (to_classes (s_ks s)) i.
+Proof. exact view_tracks_selection_ic. Qed.
+Print Assumptions C08_view_tracks_selection_ic.
